@@ -7,6 +7,7 @@
 package roomsim
 
 import (
+	"math"
 	"crypto/ed25519"
 	"encoding/json"
 	"fmt"
@@ -234,6 +235,12 @@ func (rm *room) add(actor user, prevs []string, before map[ref.Key]string, typ s
 		if rm.impl.DomainlessRoomIDs() {
 			p.RoomID = ""
 		}
+	}
+	if typ != spec.MRoomCreate && rm.impl.StateResAlgorithm() == gmsl.StateResV1 && rm.t.Chance(60) {
+		// depth is whatever the sending server says it is: far apart values in
+		// rooms whose resolution (version 1) orders events by depth
+		p.Depth = sim.Pick(rm.t, []int64{-2, -1 << 62, math.MaxInt64, math.MaxInt64 - 1, 1 << 62, 0, -math.MaxInt64})
+		rm.r.Probe("event_with_depth_at_the_edge_of_int64")
 	}
 	ev, err := world.Build(rm.impl, p, ts, actor.srv.Name, actor.srv.Current())
 	if err != nil {
